@@ -16,6 +16,7 @@ package circuitbreaker
 
 import (
 	"fmt"
+	"math"
 	"reflect"
 	"sync"
 
@@ -489,7 +490,7 @@ func IsValidRule(r *Rule) error {
 	if r.RetryTimeoutMs <= 0 {
 		return errors.New("invalid RetryTimeoutMs")
 	}
-	if r.Threshold < 0.0 {
+	if math.IsNaN(r.Threshold) || r.Threshold < 0.0 {
 		return errors.New("invalid Threshold")
 	}
 	if r.Strategy == SlowRequestRatio && r.Threshold > 1.0 {
